@@ -22,15 +22,32 @@ func theIO() *sonic.IO {
 	return sharedIO
 }
 
+// attachValidateUTF8 makes newAttached switch on the optional UTF-8 validation of text frames; sessions generated while
+// sessionASCIIText is set carry ASCII-only text payloads (valid UTF-8 wherever a fragment boundary falls), binary payloads
+// stay arbitrary.
+var attachValidateUTF8, sessionASCIIText bool
+
+var attachCounter int
+
 // newAttached builds a client stream over a scripted transport.
 func newAttached(max int, ms *memstream.Stream) (*websocket.Stream, error) {
 	s, err := websocket.NewWebsocketStream(theIO(), nil, websocket.RoleClient)
 	if err != nil {
 		return nil, err
 	}
-	s.SetMaxMessageSize(max)
+	// the maximum is configured before the stream is initialised or afterwards, alternately: both are documented uses
+	attachCounter++
+	if attachCounter%2 == 0 {
+		s.SetMaxMessageSize(max)
+	}
+	if attachValidateUTF8 {
+		s.ValidateUTF8(true)
+	}
 	if err := s.VerifAttach(ms); err != nil {
 		return nil, err
+	}
+	if attachCounter%2 == 1 {
+		s.SetMaxMessageSize(max)
 	}
 	return s, nil
 }
@@ -150,6 +167,11 @@ func genSession(t *rapid.T, max int, maxMsgs int) session {
 			frs = []rfc6455.Frame{
 				{Fin: false, Opcode: m.opcode(), Payload: m.Payload[:c], LenBytes: -1},
 				{Fin: true, Opcode: rfc6455.OpContinuation, Payload: m.Payload[c:], LenBytes: -1},
+			}
+		}
+		if sessionASCIIText && !m.Binary {
+			for k := range m.Payload { // the fragments made above alias this slice
+				m.Payload[k] &= 0x7f
 			}
 		}
 		s.Messages = append(s.Messages, m)
